@@ -31,9 +31,10 @@ type c13Model struct {
 }
 
 var c13Profile = projgen.Profile{
-	MaxControllers: 4, MaxMethods: 5, CtrlPackages: []string{"api", "api2", "internal/api3"},
+	MaxControllers: 4, MinControllers: 2, MaxMethods: 5, MinMethods: 2, CtrlPackages: []string{"api", "api2", "internal/api3"},
 	Hidden: true, Security: true, ExtraParams: 3, Types: true, TypePackages: []string{"models", "shared"},
 	Validators: true, Responses: true, SharedPrefix: true, PtrParams: true, FormParams: true, SliceQuery: true,
+	Experimental: true, // the experimental switches are configuration too (enum validators are emitted into the routes file)
 }
 
 func c13Gen(t *rapid.T) c13Model {
